@@ -682,6 +682,11 @@ fn main() {
                     Err(e) => format!("err:{e}"),
                 }
             }
+            "mark" => {
+                // visible in an strace log: write(fd, "MARK <n>", ..) to /dev/null
+                let _ = std::fs::write("/dev/null", format!("MARK {}", a[0]));
+                "ok".into()
+            }
             "threads" => {
                 // number of live fjall worker threads in this process
                 let mut n = 0;
